@@ -183,26 +183,32 @@ Enc(v) ==
 
 (* ---------- UTF-8 (what core::str::from_utf8 accepts) ---------- *)
 InR(x, lo, hi) == lo <= x /\ x <= hi
-RECURSIVE Utf8From(_, _)
-Utf8From(s, i) ==
-  IF i > Len(s) THEN TRUE
+(* Utf8UpTo(s, i) = the number of leading bytes of s that form complete, valid characters (scanning from i);  *)
+(* it is what Utf8Error::valid_up_to() reports                                                              *)
+RECURSIVE Utf8UpTo(_, _)
+Utf8UpTo(s, i) ==
+  IF i > Len(s) THEN Len(s)
   ELSE LET c == s[i] n == Len(s) IN
-    IF c < 128 THEN Utf8From(s, i + 1)
-    ELSE IF InR(c, 194, 223) THEN i + 1 <= n /\ InR(s[i+1], 128, 191) /\ Utf8From(s, i + 2)
-    ELSE IF c = 224 THEN i + 2 <= n /\ InR(s[i+1], 160, 191) /\ InR(s[i+2], 128, 191) /\ Utf8From(s, i + 3)
+    IF c < 128 THEN Utf8UpTo(s, i + 1)
+    ELSE IF InR(c, 194, 223) THEN (IF i + 1 <= n /\ InR(s[i+1], 128, 191) THEN Utf8UpTo(s, i + 2) ELSE i - 1)
+    ELSE IF c = 224 THEN (IF i + 2 <= n /\ InR(s[i+1], 160, 191) /\ InR(s[i+2], 128, 191) THEN Utf8UpTo(s, i + 3) ELSE i - 1)
     ELSE IF InR(c, 225, 236) \/ InR(c, 238, 239)
-         THEN i + 2 <= n /\ InR(s[i+1], 128, 191) /\ InR(s[i+2], 128, 191) /\ Utf8From(s, i + 3)
-    ELSE IF c = 237 THEN i + 2 <= n /\ InR(s[i+1], 128, 159) /\ InR(s[i+2], 128, 191) /\ Utf8From(s, i + 3)
-    ELSE IF c = 240 THEN i + 3 <= n /\ InR(s[i+1], 144, 191) /\ InR(s[i+2], 128, 191) /\ InR(s[i+3], 128, 191) /\ Utf8From(s, i + 4)
-    ELSE IF InR(c, 241, 243) THEN i + 3 <= n /\ InR(s[i+1], 128, 191) /\ InR(s[i+2], 128, 191) /\ InR(s[i+3], 128, 191) /\ Utf8From(s, i + 4)
-    ELSE IF c = 244 THEN i + 3 <= n /\ InR(s[i+1], 128, 143) /\ InR(s[i+2], 128, 191) /\ InR(s[i+3], 128, 191) /\ Utf8From(s, i + 4)
-    ELSE FALSE
-Utf8Valid(s) == Utf8From(s, 1)
+         THEN (IF i + 2 <= n /\ InR(s[i+1], 128, 191) /\ InR(s[i+2], 128, 191) THEN Utf8UpTo(s, i + 3) ELSE i - 1)
+    ELSE IF c = 237 THEN (IF i + 2 <= n /\ InR(s[i+1], 128, 159) /\ InR(s[i+2], 128, 191) THEN Utf8UpTo(s, i + 3) ELSE i - 1)
+    ELSE IF c = 240 THEN (IF i + 3 <= n /\ InR(s[i+1], 144, 191) /\ InR(s[i+2], 128, 191) /\ InR(s[i+3], 128, 191) THEN Utf8UpTo(s, i + 4) ELSE i - 1)
+    ELSE IF InR(c, 241, 243) THEN (IF i + 3 <= n /\ InR(s[i+1], 128, 191) /\ InR(s[i+2], 128, 191) /\ InR(s[i+3], 128, 191) THEN Utf8UpTo(s, i + 4) ELSE i - 1)
+    ELSE IF c = 244 THEN (IF i + 3 <= n /\ InR(s[i+1], 128, 143) /\ InR(s[i+2], 128, 191) /\ InR(s[i+3], 128, 191) THEN Utf8UpTo(s, i + 4) ELSE i - 1)
+    ELSE i - 1
+Utf8Valid(s) == Utf8UpTo(s, 1) = Len(s)
 
 (* ---------- parser ---------- *)
 (* Results: [ok |-> TRUE, v |-> value, n |-> index after the item]          *)
 (*          [ok |-> FALSE, why |-> "eof" | "syntax" | "depth" | "semantic", *)
-(*           gap |-> BOOLEAN]   gap = inside the zone the model leaves open *)
+(*           gap |-> BOOLEAN]   gap = inside a zone the model leaves open   *)
+(* (no such zone is left: floats are modelled arithmetically, texts longer  *)
+(* than ciborium's 4096-byte scratch buffer behave like short ones --       *)
+(* MC_Float and MC_LongText bind both to ciborium; the flag is kept so that *)
+(* a future open zone needs no new plumbing)                                *)
 Fail(why) == [ok |-> FALSE, why |-> why, gap |-> FALSE]
 GapFail   == [ok |-> FALSE, why |-> "gap", gap |-> TRUE]
 Ok(v, n)  == [ok |-> TRUE, v |-> v, n |-> n]
@@ -225,6 +231,24 @@ ReadHead(b, i) ==
 (* A declared length as a TLC number, or -1 when it certainly exceeds any input we handle *)
 LenOf(arg) == IF Len(arg) <= 3 THEN NatOf(arg) ELSE 0 - 1
 
+(* ciborium reads a text segment that does not fit its 4096-byte scratch buffer -- and EVERY chunk of an indefinite-length    *)
+(* text -- in pulls of at most ScratchLen bytes (ciborium-ll Segment::pull with the Text parser): each pull first needs its   *)
+(* bytes to be there (else end of input), then validates them; an invalid tail of at most 3 bytes is carried into the next    *)
+(* pull (it may be a character cut by the pull boundary), a longer one is a syntax error, and so is a tail left at the end.   *)
+(* The outcome is "valid iff the whole segment is valid UTF-8"; what the pulls decide is which failure a TRUNCATED input with *)
+(* an invalid byte gets.  TextPulls(b, start, unread, stored) = "ok" | "eof" | "syntax"                                       *)
+RECURSIVE TextPulls(_, _, _, _)
+TextPulls(b, start, unread, stored) ==
+  IF unread = 0 THEN (IF stored = <<>> THEN "ok" ELSE "syntax")
+  ELSE LET size == IF Len(stored) + unread < ScratchLen THEN Len(stored) + unread ELSE ScratchLen
+           need == size - Len(stored) IN
+    IF start + need - 1 > Len(b) THEN "eof"
+    ELSE LET data == stored \o Slice(b, start, start + need - 1)
+             v == Utf8UpTo(data, 1)
+             inv == Len(data) - v IN
+      IF inv > 3 THEN "syntax"
+      ELSE TextPulls(b, start + need, unread - need, IF inv = 0 THEN <<>> ELSE Slice(data, v + 1, Len(data)))
+
 RECURSIVE ParseItem(_, _, _)
 RECURSIVE ParseElems(_, _, _, _, _)
 RECURSIVE ParseIndefElems(_, _, _, _)
@@ -242,11 +266,12 @@ ParseChunks(b, i, mj, nested, acc) ==
   ELSE IF h.mj # mj THEN Fail("syntax")
   ELSE IF h.ai = 31 THEN ParseChunks(b, h.n, mj, nested + 1, acc)   \* NestedIndefiniteChunks
   ELSE LET len == LenOf(h.arg) IN
-    IF len < 0 \/ h.n + len - 1 > Len(b) THEN Fail("eof")
-    ELSE LET seg == Slice(b, h.n, h.n + len - 1) IN
-      IF mj = 3 /\ len > ScratchLen THEN GapFail
-      ELSE IF mj = 3 /\ ~Utf8Valid(seg) THEN Fail("syntax")     \* per chunk
-      ELSE ParseChunks(b, h.n + len, mj, nested, acc \o seg)
+    IF mj = 3 THEN
+      (LET t == TextPulls(b, h.n, IF len < 0 THEN 16777216 ELSE len, <<>>) IN      \* per chunk, pull by pull
+       IF t # "ok" THEN Fail(t)
+       ELSE ParseChunks(b, h.n + len, mj, nested, acc \o Slice(b, h.n, h.n + len - 1)))
+    ELSE IF len < 0 \/ h.n + len - 1 > Len(b) THEN Fail("eof")
+    ELSE ParseChunks(b, h.n + len, mj, nested, acc \o Slice(b, h.n, h.n + len - 1))
 
 ParseElems(b, i, k, d, acc) ==
   IF k = 0 THEN Ok(acc, i)
@@ -292,10 +317,12 @@ ParseItem(b, i, d) ==
            LET r == ParseChunks(b, h.n, h.mj, 1, <<>>) IN
            IF ~r.ok THEN r ELSE Ok(IF h.mj = 2 THEN Bs(r.v) ELSE Tx(r.v), r.n)
          ELSE LET len == LenOf(h.arg) IN
-           IF len < 0 \/ h.n + len - 1 > Len(b) THEN Fail("eof")
+           IF h.mj = 3 /\ (len < 0 \/ len > ScratchLen) THEN          \* a text that does not fit the scratch buffer is streamed
+             (LET t == TextPulls(b, h.n, IF len < 0 THEN 16777216 ELSE len, <<>>) IN
+              IF t # "ok" THEN Fail(t) ELSE Ok(Tx(Slice(b, h.n, h.n + len - 1)), h.n + len))
+           ELSE IF len < 0 \/ h.n + len - 1 > Len(b) THEN Fail("eof")
            ELSE LET s == Slice(b, h.n, h.n + len - 1) IN
              IF h.mj = 2 THEN Ok(Bs(s), h.n + len)
-             ELSE IF len > ScratchLen THEN GapFail
              ELSE IF Utf8Valid(s) THEN Ok(Tx(s), h.n + len) ELSE Fail("syntax")
     [] h.mj = 4 ->
          IF d = 0 THEN Fail("depth")
